@@ -39,29 +39,33 @@ def _h(hid, desc, domain, quick, thorough=None, tiers=('quick', 'thorough')):
 
 HARNESSES = []
 # all 64 labelled digraphs on three libraries a,b,c (one class per library; edges by base class or typedef);
-# thorough: also with two base classes instead of base class + typedef (all 125 codes) and with the classes
-# registered in reverse order (c,b,a)
+# thorough: also with two base classes instead of base class + typedef (all 125 codes); one more thorough entry
+# registers the classes in reverse order (c,b,a).  Cost grows faster than linearly with the number of cases per
+# query (30 cases did not finish in 2000 s on a loaded machine), hence at most 16 cases per entry.
 for _d3 in (0, 1, 2, 3, 4):
     for _lo, _hi in ((0, 10), (10, 25)):
         _q = dict(NT=3, LIBSETS='abc-', CODE_FROM=25 * _d3 + _lo, CODE_TO=25 * _d3 + _hi, SKIP3=1, ncases=8)
-        _t = dict(NT=3, LIBSETS='abc-;cba-', CODE_FROM=25 * _d3 + _lo, CODE_TO=25 * _d3 + _hi, SKIP3=0, ncases=2 * (_hi - _lo))
+        _t = dict(NT=3, LIBSETS='abc-', CODE_FROM=25 * _d3 + _lo, CODE_TO=25 * _d3 + _hi, SKIP3=0, ncases=_hi - _lo)
         HARNESSES.append(_h('c16_graph3_%d%s' % (_d3, 'ab'[_lo > 0]),
                             'write_python_table_native + find_dependency_cycle on every dependency graph of 3 libraries (slice %d/%d)' % (_d3, _lo),
                             '3 global classes in libraries a,b,c; each depends on any subset of the other two (base class / typedef); '
                             'dependency codes %d..%d (base 5, one digit per class: none/first/second/both/both)' % (25 * _d3 + _lo, 25 * _d3 + _hi - 1),
                             _q, _t, tiers=('thorough',) if _d3 == 3 else ('quick', 'thorough')))
+HARNESSES.append(_h('c16_graph3_rev', 'dependency graphs of 3 libraries with the classes registered in reverse order of the library names',
+                    '3 global classes in libraries c,b,a; dependency codes 0..24 without mode 3 (16 graphs)',
+                    dict(NT=3, LIBSETS='cba-', CODE_FROM=0, CODE_TO=25, SKIP3=1, ncases=16), tiers=('thorough',)))
 HARNESSES.append(_h('c16_funclib', 'a library that contributes only a function, next to two class libraries',
                     '2 global classes in libraries a,b (thorough: also b,a), one function in library c; every dependency set',
                     dict(NT=2, LIBSETS='abc', CODE_FROM=0, CODE_TO=10, SKIP3=1, ncases=8),
-                    dict(NT=2, LIBSETS='abc;bac', CODE_FROM=0, CODE_TO=25, SKIP3=1, ncases=32)))
+                    dict(NT=2, LIBSETS='abc;bac', CODE_FROM=0, CODE_TO=10, SKIP3=1, ncases=16)))
 HARNESSES.append(_h('c16_shared_nolib', 'two classes in one library; a global class without library name; function in a class library',
                     '3 global classes with libraries a,a,b (thorough; quick-sized variant: a,a,b and a,(none),b) and a,b,c + a function in library a; dependency sets of a slice of the codes',
                     dict(NT=3, LIBSETS='aab-;a-b-', CODE_FROM=30, CODE_TO=35, SKIP3=1, ncases=8),
-                    dict(NT=3, LIBSETS='aab-;abca', CODE_FROM=25, CODE_TO=50, SKIP3=1, ncases=32), tiers=('thorough',)))
+                    dict(NT=3, LIBSETS='aab-;abca', CODE_FROM=30, CODE_TO=40, SKIP3=1, ncases=16), tiers=('thorough',)))
 HARNESSES.append(_h('c16_foreign_module', 'a class of the module derives from a global class of ANOTHER module present in the same database',
                     '3 global classes in libraries a,b,c, the class in b (thorough: or a) belongs to another module; dependency sets of the first class (thorough: first two)',
                     dict(NT=3, LIBSETS='aBc-', CODE_FROM=0, CODE_TO=5, SKIP3=1, ncases=4),
-                    dict(NT=3, LIBSETS='aBc-;Abc-', CODE_FROM=0, CODE_TO=25, SKIP3=1, ncases=32)))
+                    dict(NT=3, LIBSETS='aBc-;Abc-', CODE_FROM=0, CODE_TO=10, SKIP3=1, ncases=16)))
 
 PROPERTY_INFO = {'C16': {'level': 'model_checking',
          'explanation': 'execution of the real library-ordering code of interrogate_module (write_python_table_native, find_dependency_cycle) by the '
